@@ -51,6 +51,25 @@ Theorem C05_tetra_120 : forall (c s : R) (o a h : pt (A := R)),
   dist2 h' h = (3 * rho2)%R /\ ((rho2 > 0)%R -> h' <> h).
 Proof. exact tetra_120_about. Qed.
 
+(* rebuild_tetrahedral with two of three hydrogens present (numbonds = 3) and
+   get_position_with_three_bonds: n1 = h0 rotated by 120 degrees, n2 = n1 rotated again;
+   n1 is taken unless the second existing hydrogen is within thr (0.1 A) of it.  If the two
+   existing hydrogens are 120 degrees apart about the bond (h1 on n1 or on n2) and further
+   than thr from each other, the new atom is at squared distance 3 rho^2 from BOTH existing
+   hydrogens (never on top of either), at h0's bond length from the parent a and h0's
+   distance from the axis atom o (bond angle) *)
+Theorem C05_tetra3_choice : forall (thr c s : R) (o a h0 h1 : pt (A := R)),
+  dot3 RA (psub RA a o) (psub RA a o) <> 0%R -> c = (- (1 / 2))%R -> (s * s = 3 / 4)%R ->
+  let n1 := rotate_about RA c s o a h0 in
+  let n2 := rotate_about RA c s o a n1 in
+  let l := normalize RA (psub RA a o) in
+  let rho2 := (dot3 RA (psub RA h0 o) (psub RA h0 o) - dot3 RA l (psub RA h0 o) * dot3 RA l (psub RA h0 o))%R in
+  (0 < thr)%R -> (thr * thr < 3 * rho2)%R -> (h1 = n1 \/ h1 = n2) ->
+  let x := rebuild3 RA thr c s o a h0 h1 in
+  dist2 x h0 = (3 * rho2)%R /\ dist2 x h1 = (3 * rho2)%R /\ x <> h0 /\ x <> h1 /\
+  dist2 x a = dist2 h0 a /\ dist2 x o = dist2 h0 o.
+Proof. exact tetra3_choice. Qed.
+
 (* every optimisation move is a rotation about a bond through the parent a: it keeps
    the distance to a, the distance to the other axis atom o, the bond angle p - a - o,
    and all distances between atoms moved together - for ALL points and ALL angles *)
@@ -112,6 +131,7 @@ Proof. exact c05_nonvacuous. Qed.
 
 Print Assumptions C05_fit3_exact_geometry.
 Print Assumptions C05_tetra_120.
+Print Assumptions C05_tetra3_choice.
 Print Assumptions C05_rotation_keeps_parent_geometry.
 Print Assumptions C05_unit_placement.
 Print Assumptions C05_all_atom_subtree_table.
